@@ -235,7 +235,17 @@ DUnregister(rs, ls, fn, s, id, ver) ==
 DropRS(rs, s) ==
   IF KindOf(s) = "timer" THEN rs
   ELSE FoldLeft(LAMBDA acc, c : IF acc.gtok[s][c] # NoTok THEN KUnregister(acc, s, c) ELSE acc, rs, [c \in 1..NC(s) |-> c])
-DropEvs(s) == <<[e |-> "drop_src", s |-> s], [e |-> "drop_cb", s |-> s]>>
+\* A source declared with `ondrop` re-enters the loop from its Drop: it calls LoopHandle::remove with its own
+\* (by then dead) token - a no-op, but it needs the source list, so it must not run while the list is borrowed.
+LastTokIdx(s) == CHOOSE i \in DOMAIN issued : issued[i].s = s /\ \A j \in DOMAIN issued : issued[j].s = s => j <= i
+DropEvs(s, inRemove) ==
+  <<[e |-> "drop_src", s |-> s]>>
+  \o (IF D(s).ondrop = 1 /\ \E i \in DOMAIN issued : issued[i].s = s
+      THEN <<[e |-> "op", op |-> "remove", ts |-> s, t |-> LastTokIdx(s) - 1, ctx |-> 1000 + s],
+             [e |-> "opret", op |-> "remove", ctx |-> 1000 + s,
+              r |-> IF inRemove /\ "drop_with_list_borrowed" \in Variants THEN "panic" ELSE "ok"]>>
+      ELSE <<>>)
+  \o <<[e |-> "drop_cb", s |-> s]>>
 
 (***************************************************************************)
 (* Initial state.                                                          *)
@@ -251,7 +261,7 @@ Init ==
   /\ treg = [s \in S |-> [on |-> FALSE, key |-> NoTok, ctr |-> 0]]
   /\ heap = {} /\ expired = {} /\ nextCtr = 0 /\ now = 0
   /\ pc = "top" /\ dsp = NoDsp /\ cbCount = [cb |-> [s \in S |-> 0], bs |-> [s \in S |-> 0]]
-  /\ steps = 0 /\ nfaults = 0 /\ nextIdle = 1 /\ failNext = {}
+  /\ steps = 0 /\ nfaults = 0 /\ nextIdle = [n |-> 1, h |-> {}] /\ failNext = {}
   /\ mon = Feed(Empty, <<ResetEv, SnapEv(<<>>, <<>>, "continue", <<>>, {}, [f \in AllFds |-> [on |-> FALSE]])>>)
   /\ hist = IF RecordHist THEN <<ResetEv, SnapEv(<<>>, <<>>, "continue", <<>>, {}, [f \in AllFds |-> [on |-> FALSE]])>> ELSE <<>>
 
@@ -311,7 +321,7 @@ OpRemove(t) ==
                 /\ obj' = [obj EXCEPT ![s] = IF dies THEN "gone" ELSE IF Borrowed(s) THEN @ ELSE "held"]
                 /\ enabled' = [enabled EXCEPT ![s] = IF Borrowed(s) THEN @ ELSE FALSE]
                 /\ heldD' = heldD
-                /\ Emit(WithSnap(<<OpEv("remove", [t |-> t - 1])>> \o r.evs \o (IF dies THEN DropEvs(s) ELSE <<>>)
+                /\ Emit(WithSnap(<<OpEv("remove", [t |-> t - 1])>> \o r.evs \o (IF dies THEN DropEvs(s, TRUE) ELSE <<>>)
                              \o <<RetEv("remove", "ok", <<>>)>>))
 
 \* LoopHandle::{disable, enable, update}(token)
@@ -402,18 +412,20 @@ Fault(s, call) ==
             SnapEv(slots, lifeSet, pending, idles, heap, kern)>>)
 
 InsertIdle ==
-  /\ CanOp("insert_idle") /\ nextIdle <= 3 /\ Budget
+  /\ CanOp("insert_idle") /\ nextIdle.n <= 3 /\ Budget
   /\ UNCHANGED <<slots, lifeSet, pending, issued, obj, heldD, enabled, gtok, kern, rdy, edgeq, pingCnt, closeBit, handles,
                  tdl, treg, heap, expired, nextCtr, now, pc, cbCount, nfaults, failNext>>
-  /\ idles' = Append(idles, [i |-> nextIdle, live |-> TRUE]) /\ nextIdle' = nextIdle + 1
-  /\ Emit(WithSnap(<<OpEv("insert_idle", [i |-> nextIdle]), RetEv("insert_idle", "ok", [i |-> nextIdle])>>))
+  \* nextIdle = [n: next idle id, h: ids whose Idle handle the driver still holds (cancel consumes the handle)]
+  /\ idles' = Append(idles, [i |-> nextIdle.n, live |-> TRUE]) /\ nextIdle' = [n |-> nextIdle.n + 1, h |-> nextIdle.h \cup {nextIdle.n}]
+  /\ Emit(WithSnap(<<OpEv("insert_idle", [i |-> nextIdle.n]), RetEv("insert_idle", "ok", [i |-> nextIdle.n])>>))
 
 \* Idle::cancel on the handle of idle i (the closure is emptied wherever the Rc currently lives)
 CancelTaken(i) == [k \in DOMAIN dsp.idl |-> IF dsp.idl[k].i = i THEN [dsp.idl[k] EXCEPT !.live = FALSE] ELSE dsp.idl[k]]
 CancelIdle(i) ==
-  /\ CanOp("cancel_idle") /\ i \in 1..(nextIdle - 1)
+  /\ CanOp("cancel_idle") /\ i \in nextIdle.h
+  /\ nextIdle' = [nextIdle EXCEPT !.h = @ \ {i}]
   /\ UNCHANGED <<slots, lifeSet, pending, issued, obj, heldD, enabled, gtok, kern, rdy, edgeq, pingCnt, closeBit, handles,
-                 tdl, treg, heap, expired, nextCtr, now, pc, cbCount, nfaults, nextIdle, failNext>>
+                 tdl, treg, heap, expired, nextCtr, now, pc, cbCount, nfaults, failNext>>
   /\ ~(pc = "inidle" /\ dsp.idl[dsp.i].i = i)          \* an idle cancelling itself is outside the contract
   /\ IF pc = "top" THEN /\ steps < MaxSteps /\ steps' = steps + 1 /\ dsp' = dsp
      ELSE /\ dsp.ops > 0 /\ steps' = steps
@@ -646,7 +658,7 @@ PostAction ==
         /\ slots' = sl1 /\ lifeSet' = r2.life /\ failNext' = r2.fn /\ ApplyRS(rs3)
         /\ obj' = [obj EXCEPT ![s] = obj2]
         /\ enabled' = [enabled EXCEPT ![s] = IF gone \/ act = "disable" THEN FALSE ELSE @]
-        /\ Emit(applyEv \o r1.evs \o r2.evs \o (IF dies THEN DropEvs(s) ELSE <<>>))
+        /\ Emit(applyEv \o r1.evs \o r2.evs \o (IF dies THEN DropEvs(s, FALSE) ELSE <<>>))
         \* a failing re-registration / unregistration of the post action is reported by this dispatch as well
         /\ pc' = "ev" /\ dsp' = [dsp EXCEPT !.disp = NoSrc, !.pos = @ + 1, !.err = @ \/ ~r1.ok]
 
